@@ -98,6 +98,7 @@ type ApiEvt struct {
 	TokenAtInv  string
 	CtxDoneAtInv bool
 	WasLeaderAtInv bool
+	OwnerAtInv bool
 	Panic     string
 }
 
@@ -163,6 +164,7 @@ type Hist struct {
 }
 
 type StallEvt struct {
+	Inst int
 	T    time.Duration
 	Site string
 	D    time.Duration
